@@ -382,7 +382,7 @@ func prepareCall(fr *frame, call *ssa.CallCommon) (fn value, args []value) {
 		}
 		if recv.t == envObjType.named {
 			sig := call.Method.Type().(*types.Signature)
-			fn = &builtinFn{name: "env." + call.Method.Name(), f: func(fr *frame, a []value) value { return envResults(sig) }}
+			fn = &builtinFn{name: "env." + call.Method.Name(), f: func(fr *frame, a []value) value { return envResultsCtx(sig, a) }}
 			for _, arg := range call.Args {
 				args = append(args, fr.get(arg))
 			}
